@@ -180,7 +180,9 @@ def header_lines(rng, fields, noise=False):
                                      # one line, an entry followed or preceded by other text (the grammar takes whole lines)
                                      '  // { 1, "commented_out" },', '  /* { 2, "old_field" }, */',
                                      '  { 1, "two" }, { 2, "on_one_line" },', '  { 2, "with_remark" }, // remark',
-                                     '  x { 1, "prefixed" },']))
+                                     '  x { 1, "prefixed" },',
+                                     # widths that are 1 or 2 by value but not by spelling
+                                     '  { 01, "leading_zero" },', '  { 002, "two_zeros" },', '  { +1, "signed" },', '  { 1.0, "decimal" },']))
         last = i == len(fields) - 1
         comma = "" if (last and rng.random() < 0.5) else ","
         if noise and rng.random() < 0.15:
